@@ -243,5 +243,5 @@ fn run(case: &Case) -> Outcome {
 }
 
 pub fn parts() -> Vec<Box<dyn DynPart>> {
-    vec![Box::new(Gen::new(C05, 2_000_000, 100_000_000))]
+    vec![Box::new(Gen::new(C05, 6_000_000, 400_000_000))]
 }
